@@ -477,9 +477,33 @@ def _all_reduce(tensor, op=None, group=None, async_op=False):
             acc += data[r]
         return {r: acc for r in ranks}
 
-    payload = {'read': lambda: tensor.detach().clone(), 'write': lambda res: tensor.copy_(res), 'value': lambda: [tensor],
+    rd, wr = _rw(tensor)
+    payload = {'read': rd, 'write': wr, 'value': lambda: [tensor],
                'compute': compute, 'ev': {'numel': tensor.numel(), 'dtype': str(tensor.dtype), 'shape': tuple(tensor.shape)}}
     return sim.collective('all_reduce', group, _sig_tensor(tensor), payload, async_op)
+
+
+def _dense(t):
+    """True if the tensor occupies one gap-free block of storage (any permutation of a contiguous layout)."""
+    if t.numel() == 0:
+        return True
+    span = 1 + sum((sz - 1) * st for sz, st in zip(t.shape, t.stride()))
+    return span == t.numel() and all(st > 0 for sz, st in zip(t.shape, t.stride()) if sz > 1)
+
+
+def _raw(t):
+    """The tensor's elements in STORAGE order as a 1-d view: backends such as gloo transmit the memory block and ignore the strides,
+    so a dense non-contiguous buffer is filled / read in memory order, not in logical order."""
+    if t.is_contiguous() or not _dense(t):
+        return None
+    return torch.as_strided(t, (t.numel(),), (1,), t.storage_offset())
+
+
+def _rw(tensor):
+    raw = _raw(tensor)
+    if raw is None:
+        return (lambda: tensor.detach().clone().reshape(-1)), (lambda res: tensor.copy_(res.reshape(tensor.shape)))
+    return (lambda: raw.detach().clone()), (lambda res: raw.copy_(res))
 
 
 def _broadcast(tensor, src=None, group=None, async_op=False, group_src=None):
@@ -493,7 +517,8 @@ def _broadcast(tensor, src=None, group=None, async_op=False, group_src=None):
     def compute(ranks, data):
         return {r: data[src] for r in ranks}
 
-    payload = {'read': lambda: tensor.detach().clone(), 'write': lambda res: tensor.copy_(res), 'value': lambda: [tensor],
+    rd, wr = _rw(tensor)
+    payload = {'read': rd, 'write': wr, 'value': lambda: [tensor],
                'compute': compute, 'ev': {'numel': tensor.numel(), 'dtype': str(tensor.dtype), 'shape': tuple(tensor.shape), 'root': src}}
     return sim.collective('broadcast', group, _sig_tensor(tensor) + (int(src),), payload, async_op)
 
